@@ -1,5 +1,6 @@
 import Q1t.Proofs.Builders
 import Q1t.Proofs.NoPanicRoute
+import Q1t.Proofs.NoPanicStabC03
 import Q1t.Proofs.C18Witness
 import Q1t.Proofs.ExportNoPanicOQBridge
 import Q1t.Proofs.ExportNoPanicCQBridge
@@ -163,16 +164,19 @@ theorem no_panic_reexecute_partial (hα : LawfulAmp α P) (nq nc : Nat) (calls :
 end exec
 
 /-- **either representation** (`…_partial`: the per-operation obligations of the representation are the
-hypothesis `hB`).  For ANY backend whose nine `QuState` operations are safe on operands inside the class
-described by `WellFormed` (`BackendSafe`), `do_execute_with` on an `ExecWF` circuit built through the
-public calls returns a value satisfying the invariant, an error in `okErr`, or a panic in `allowed`.
-The vector representation is an instance with `okErr = ∅`, `allowed = {numeric}` (`vecBackendSafe`);
-for the stabilizer representation the record (with `okErr = {NotAStabilizer}`, `allowed = ∅`) is what C03
-owes: it is validated operation by operation by the correspondence run, not proved here. -/
+hypothesis `hB`).  For ANY backend whose nine `QuState` operations are safe on the placements `V` it handles
+(`BackendSafe`), where `V` covers every valid placement of the gates in a class `E` and the executor's basis
+changes (`Handles`), `do_execute_with` on an `ExecWF` circuit built through the public calls whose gates are in
+`E` returns a value satisfying the invariant, an error in `okErr`, or a panic in `allowed`.
+The vector representation is the instance `E = everything`, `okErr = ∅`, `allowed = {numeric}`
+(`vecBackendSafe`, `vecHandles`); the stabilizer representation is the instance `E = is_stabilizer()`,
+`okErr = ∅`, `allowed = ∅` (`stabBackendSafe`, `stabHandles`; `no_panic_stabilizer_partial` below). -/
 theorem exec_either_representation_partial {W P S : Type} (B : Backend W P S) (okErr : SimErr → Prop)
-    (allowed : String → Prop) (Inv : S → Prop) (nq nc : Nat) (calls : List (Call P)) (shots : Nat)
-    (hB : BackendSafe B okErr allowed Inv nq shots)
+    (allowed : String → Prop) (Inv : S → Prop) (E : GateTerm P → Prop) (V : GateTerm P → List Nat → Prop)
+    (nq nc : Nat) (calls : List (Call P)) (shots : Nat)
+    (hB : BackendSafe B okErr allowed Inv nq shots V) (hH : Handles nq E V)
     (hwf : ExecWF (runCalls (Circ.new nq nc) calls).1 shots = true)
+    (hE : ∀ op ∈ (runCalls (Circ.new nq nc) calls).1.ops, opGate E op)
     (s0 : S) (c0 : List Nat) (hs0 : Inv s0) (hc0 : c0.length = shots)
     (ds : List Prog.Draw) (r : Except Fail (S × List Nat)) (ds' : List Prog.Draw)
     (hrun : Prog.runOracle (execOps B s0 c0 (runCalls (Circ.new nq nc) calls).1.ops) ds = some (r, ds')) :
@@ -181,34 +185,74 @@ theorem exec_either_representation_partial {W P S : Type} (B : Backend W P S) (o
   obtain ⟨_, hgood⟩ := execWF_opGood hwf (by
     rw [hsz.2.1, hsz.2.2]; exact built_inRange nq nc calls)
   rw [hsz.2.1, hsz.2.2] at hgood
-  exact (execOps_safe (nc := nc) hB _ s0 c0 hs0 hc0 hgood).sound ds r ds' hrun
+  exact (execOps_safe (nc := nc) hB hH _ s0 c0 hs0 hc0 hgood hE).sound ds r ds' hrun
 
-/-- **both representations return the same constructor** (`…_partial`): on an `ExecWF` circuit the vector
-representation returns `ok` (or the numeric panic); a stabilizer representation satisfying `BackendSafe`
-returns `ok` unless it refuses the circuit as a whole with `NotAStabilizer`. -/
-theorem reps_same_constructor_partial {α P : Type} [CommRing α] [Amp α P] [SimAmp α] (hα : LawfulAmp α P)
-    (half : α) (ph : List Nat) (conjOf : GateTerm P → Tableau.Tab.Conj) (SInv : StabState → Prop)
-    (nq nc : Nat) (calls : List (Call P)) (shots : Nat)
-    (hS : BackendSafe (stabBackend half ph conjOf) (fun e => e = .notAStabilizer) (fun _ => False) SInv nq shots)
-    (hS0 : SInv (StabState.new nq shots))
+/-! ### the stabilizer representation
+
+`BackendSafe` of the stabilizer representation is no longer a hypothesis: `Proofs/NoPanicStab.lean` lifts
+tableau-level progress (`TabTotal`: gate application, `measure`, `collapse`, `reset` return `Ok` on tableaux in an
+invariant) through the column bookkeeping of `StabilizerState` (`stabBackendSafe`), and `Proofs/NoPanicStabC03.lean`
+discharges `TabTotal` from C03's progress theorems for the REACHABLE tableaux, for all `n` (`tabTotal_reach`).
+What remains is C03's own open hypothesis `DetShapeHolds` (the deterministic branch of `measure` finds its row). -/
+
+/-- the invariant of the stabilizer state: register sizes, positive column counts summing to the shots, every
+column tableau reachable (C03's `Reach`, ghost amplitudes in ℚ(ζ₈)) from |0…0⟩ -/
+abbrev StabInv (nq shots : Nat) : StabState → Prop :=
+  SInv (Q1t.Proofs.TabG.TReach (α := Q8) (A := Empty) nq Gen.phaseTable Gen.conjTable Gen.conjNoArityCheck) nq shots
+
+/-- **no_panic_stabilizer_partial**: for every circuit built through the public calls that satisfies `ExecWF` and
+that `Circuit::is_stabilizer_circuit()` accepts (the condition under which `execute` chooses the stabilizer
+representation), every oracle run of `do_execute_with` on the stabilizer representation — from the fresh state or
+from ANY state a run can have ended in (re-execute) — ends `Ok`: no error, no panic.  All register sizes, all
+shot counts, all draws; relative to `DetShapeHolds` only. -/
+theorem no_panic_stabilizer_partial {W : Type} (half : W) (nq nc : Nat) (calls : List (Call Empty)) (shots : Nat)
+    (hD : Q1t.Proofs.TabG.DetShapeHolds (α := Q8) (A := Empty) nq Gen.phaseTable Gen.conjTable Gen.conjNoArityCheck)
     (hwf : ExecWF (runCalls (Circ.new nq nc) calls).1 shots = true)
+    (hstab : Conj.isStabilizerCircuit (runCalls (Circ.new nq nc) calls).1.ops = true)
+    (s0 : StabState) (c0 : List Nat) (hs0 : s0 = StabState.new nq shots ∨ StabInv nq shots s0) (hc0 : c0.length = shots)
+    (ds : List Prog.Draw) (r : Except Fail (StabState × List Nat)) (ds' : List Prog.Draw)
+    (hrun : Prog.runOracle (execOps (stabBackend (α := W) half Gen.phaseTable
+      (Q1t.Proofs.TabG.conjOfT (A := Empty) Gen.conjTable Gen.conjNoArityCheck)) s0 c0
+      (runCalls (Circ.new nq nc) calls).1.ops) ds = some (r, ds')) :
+    ∃ s c, r = .ok (s, c) ∧ StabInv nq shots s ∧ c.length = shots := by
+  have hsz := runCalls_ops (Circ.new (P := Empty) nq nc) calls
+  obtain ⟨hN, hgood⟩ := execWF_opGood hwf (by
+    rw [hsz.2.1, hsz.2.2]; exact built_inRange nq nc calls)
+  rw [hsz.2.1, hsz.2.2] at hgood
+  have hinv : StabInv nq shots s0 := by
+    rcases hs0 with h | h
+    · rw [h]; exact Q1t.Proofs.TabG.new_sinv_reach _ _ _ nq shots hN
+    · exact h
+  have hsafe := Q1t.Proofs.TabG.execOps_stab_safe_generated half nq hD shots nc hN _ hgood hstab s0 c0 hinv hc0
+  have := hsafe.sound ds r ds' hrun
+  match r, this with
+  | .ok (s, c), h => exact ⟨s, c, rfl, h.1, h.2⟩
+  | .error (.err e), h => exact absurd h (by simp [Outcome, noErr])
+  | .error (.panic site), h => exact absurd h (by simp [Outcome])
+
+/-- **both representations return the same constructor** (`…_partial`): on an `ExecWF` circuit that
+`is_stabilizer_circuit()` accepts, the vector representation returns `Ok` (or the numeric panic) and the stabilizer
+representation returns `Ok` — relative to `DetShapeHolds`; no `BackendSafe` hypothesis is left. -/
+theorem reps_same_constructor_partial {α : Type} [CommRing α] [Amp α Empty] [SimAmp α] (hα : LawfulAmp α Empty)
+    {W : Type} (half : W) (nq nc : Nat) (calls : List (Call Empty)) (shots : Nat)
+    (hD : Q1t.Proofs.TabG.DetShapeHolds (α := Q8) (A := Empty) nq Gen.phaseTable Gen.conjTable Gen.conjNoArityCheck)
+    (hwf : ExecWF (runCalls (Circ.new nq nc) calls).1 shots = true)
+    (hstab : Conj.isStabilizerCircuit (runCalls (Circ.new nq nc) calls).1.ops = true)
     (dv ds : List Prog.Draw) (rv : Except Fail (VecState α × List Nat)) (rs : Except Fail (StabState × List Nat))
     (dv' ds' : List Prog.Draw)
-    (hv : Prog.runOracle (execOps (vecBackend (α := α) (P := P)) (VecState.new nq shots)
+    (hv : Prog.runOracle (execOps (vecBackend (α := α) (P := Empty)) (VecState.new nq shots)
       (List.replicate shots 0) (runCalls (Circ.new nq nc) calls).1.ops) dv = some (rv, dv'))
-    (hs : Prog.runOracle (execOps (stabBackend half ph conjOf) (StabState.new nq shots)
+    (hs : Prog.runOracle (execOps (stabBackend (α := W) half Gen.phaseTable
+      (Q1t.Proofs.TabG.conjOfT (A := Empty) Gen.conjTable Gen.conjNoArityCheck)) (StabState.new nq shots)
       (List.replicate shots 0) (runCalls (Circ.new nq nc) calls).1.ops) ds = some (rs, ds')) :
-    ((∃ x, rv = .ok x) ∨ rv = .error (.panic "WeightedIndex::new(..).unwrap()")) ∧
-    ((∃ y, rs = .ok y) ∨ rs = .error (.err .notAStabilizer)) := by
+    ((∃ x, rv = .ok x) ∨ rv = .error (.panic "WeightedIndex::new(..).unwrap()")) ∧ (∃ y, rs = .ok y) := by
   constructor
   · rcases no_panic_partial hα nq nc calls shots hwf dv rv dv' hv with ⟨s, c, h, _⟩ | h
     · exact Or.inl ⟨_, h⟩
     · exact Or.inr h
-  · have := exec_either_representation_partial _ _ _ SInv nq nc calls shots hS hwf _ _ hS0 (by simp) ds rs ds' hs
-    match rs, this with
-    | .ok y, _ => exact Or.inl ⟨y, rfl⟩
-    | .error (.err e), h => exact Or.inr (by rw [show e = _ from h])
-    | .error (.panic _), h => exact absurd h (by simp [Outcome])
+  · obtain ⟨s, c, h, _⟩ := no_panic_stabilizer_partial half nq nc calls shots hD hwf hstab _ _ (Or.inl rfl) (by simp)
+      ds rs ds' hs
+    exact ⟨_, h⟩
 
 /-! ## the exporters
 
@@ -266,6 +310,13 @@ example : allAccepted 2 2 wGood = true ∧ WellFormed (built 2 2 wGood) 3 = true
     openQasmCls (built 2 2 wGood) = .ok ∧ cQasmCls (built 2 2 wGood) = .ok ∧
     latexOutcome (built 2 2 wGood) = .ok () :=
   ⟨good_accepted, good_wf, good_oq, good_cq, good_latex⟩
+
+open Q1t.C18W in
+/-- the hypotheses of `no_panic_stabilizer_partial` other than `DetShapeHolds` are satisfiable: `wGood` (H, CX,
+measure_all) is `ExecWF` and a stabilizer circuit; a circuit with `T` is not one -/
+example : ExecWF (runCalls (Circ.new 2 2) wGood).1 3 = true ∧
+    Conj.isStabilizerCircuit (runCalls (Circ.new 2 2) wGood).1.ops = true ∧
+    Conj.isStabilizerCircuit (runCalls (Circ.new (P := Empty) 1 1) [.addGate .T [0]]).1.ops = false := by decide +kernel
 
 /-- the builders reject: `cx(0, 5)` on two qubits is `InvalidQBit(5)` and leaves the circuit alone -/
 example : (step (Circ.new (P := Empty) 2 1) (.cx 0 5)).2 = .error (.err (.invalidQBit 5)) ∧
